@@ -3,6 +3,8 @@ use super::closure::*;
 use crate::engine::*;
 use crate::hist::*;
 use crate::langs::LangId;
+use crate::tm::*;
+use std::sync::Arc;
 
 fn run(c: &Hist, obs: &mut Obs) -> Result<(), String> {
     run_closure(c, Dir::Sound, obs)
@@ -30,7 +32,152 @@ pub fn stages(tier: Tier, run: RunFn<Hist>, rule: &'static str) -> Vec<Box<dyn D
             exhaustive: false,
         }));
     }
+    // symmetric class meets a class whose parent has a redundant slot (exhaustive over small generator sets)
+    let max_k = tier.pick(4, 4);
+    v.push(Box::new(Stage {
+        name: "symmetry-transfer",
+        source: Source::Enumerate(Arc::new(move || Box::new(transfer_cases(max_k, false).into_iter()))),
+        run,
+        panic_is_violation: false,
+        render: |c: &Hist| c.render(),
+        rule: "exhaustive: a k-slot leaf g made symmetric by every set of <= 2 permutations (k = 3 and k = 4), a second k-slot leaf h whose parent (w (h ..)) already lost one slot, then g = h asserted in either orientation, so that h's class receives all generators at once while its parent has a redundant slot; all (sub)terms compared with the ground closure",
+        case_timeout_s: tier.pick(300, 900),
+        exhaustive: true,
+    }));
+    v.push(Box::new(Stage {
+        name: "symmetry-through-node",
+        source: Source::Enumerate(Arc::new(move || Box::new(through_node_cases(tier).into_iter()))),
+        run,
+        panic_is_violation: false,
+        render: |c: &Hist| c.render(),
+        rule: "exhaustive: a parent (p (g ..) (g pi(..))) that uses one k-slot class twice in two argument orders, then (w (h ..)) = (g ..) asserted in either orientation (the w-node now lives in g's class but stems from a dead class), then h made symmetric by every set of <= 2 permutations (k = 3; k = 4 with every 6th argument order pi in the quick tier, all in the thorough tier): g's class learns its symmetry through a moved e-node and its parent has to be re-canonicalised; all (sub)terms compared with the ground closure",
+        case_timeout_s: tier.pick(300, 900),
+        exhaustive: true,
+    }));
     v
+}
+
+pub fn through_node_cases(tier: Tier) -> Vec<Hist> {
+    let mut out = Vec::new();
+    for k in [3usize, 4] {
+        let (g, h) = if k == 3 { ("g3", "h3") } else { ("g4", "h4") };
+        let ps = perms_k(k);
+        let id: Vec<u8> = (0..k as u8).collect();
+        let mut sets: Vec<Vec<Vec<u8>>> = Vec::new();
+        for a in 0..ps.len() {
+            if ps[a] == id {
+                continue;
+            }
+            sets.push(vec![ps[a].clone()]);
+            for b in a + 1..ps.len() {
+                if ps[b] == id {
+                    continue;
+                }
+                sets.push(vec![ps[a].clone(), ps[b].clone()]);
+            }
+        }
+        for set in &sets {
+            for (pi_i, pi) in ps.iter().enumerate() {
+                if *pi == id {
+                    continue;
+                }
+                if k == 4 && tier == Tier::Quick && pi_i % 6 != 1 {
+                    continue;
+                }
+                for orient in 0..2 {
+                    let leaf = |op: &str, p: &Vec<u8>| Tm::leaf(op, &p.iter().map(|x| *x as Name).collect::<Vec<_>>());
+                    let kk = |t: Tm| Arg::K(vec![], t);
+                    let mut ops = Vec::new();
+                    let mut n = 0usize;
+                    let mut add = |t: Tm, ops: &mut Vec<HOp>| -> usize {
+                        ops.push(HOp::Add(t));
+                        n += 1;
+                        n - 1
+                    };
+                    add(Tm::node("p", vec![kk(leaf(g, &id)), kk(leaf(g, pi))]), &mut ops);
+                    let y = add(Tm::node("w", vec![kk(leaf(h, &id))]), &mut ops);
+                    let x = add(leaf(g, &id), &mut ops);
+                    ops.push(if orient == 0 { HOp::Union(y, x) } else { HOp::Union(x, y) });
+                    let hb = add(leaf(h, &id), &mut ops);
+                    for p in set {
+                        let hp = add(leaf(h, p), &mut ops);
+                        ops.push(HOp::Union(hb, hp));
+                    }
+                    out.push(Hist { lang: LangId::Core, naming: Naming::Alpha, ops });
+                }
+            }
+        }
+    }
+    out
+}
+
+fn perms_k(k: usize) -> Vec<Vec<u8>> {
+    crate::egx::perms(&(0..k as u8).collect::<Vec<u8>>())
+}
+
+pub fn transfer_cases(max_k: usize, quick: bool) -> Vec<Hist> {
+    let mut out = Vec::new();
+    let mut ks = vec![3usize];
+    if max_k >= 4 || quick {
+        ks.push(4);
+    }
+    for k in ks {
+        let (g, h) = if k == 3 { ("g3", "h3") } else { ("g4", "h4") };
+        let ps = perms_k(k);
+        let id: Vec<u8> = (0..k as u8).collect();
+        let mut sets: Vec<Vec<Vec<u8>>> = vec![vec![]];
+        for a in 0..ps.len() {
+            if ps[a] == id {
+                continue;
+            }
+            sets.push(vec![ps[a].clone()]);
+            for b in a + 1..ps.len() {
+                if ps[b] == id {
+                    continue;
+                }
+                sets.push(vec![ps[a].clone(), ps[b].clone()]);
+            }
+        }
+        for set in sets {
+            if k == 4 && quick {
+                // quick tier: only sets of two disjoint transpositions-like generators (each generator moves exactly two points)
+                let small = set.len() == 2 && set.iter().all(|p| p.iter().enumerate().filter(|(i, v)| *i as u8 != **v).count() == 2);
+                if !small {
+                    continue;
+                }
+            }
+            for d in 0..k {
+                for orient in 0..2 {
+                    let leaf = |op: &str, p: &Vec<u8>| Tm::leaf(op, &p.iter().map(|x| *x as Name).collect::<Vec<_>>());
+                    let mut ops = Vec::new();
+                    let mut n = 0usize;
+                    let mut add = |t: Tm, ops: &mut Vec<HOp>| -> usize {
+                        ops.push(HOp::Add(t));
+                        n += 1;
+                        n - 1
+                    };
+                    // 1. parent of h loses slot d
+                    let w = |t: Tm| Tm::node("w", vec![Arg::K(vec![], t)]);
+                    let mut ren = id.clone();
+                    ren[d] = k as u8;
+                    let p1 = add(w(leaf(h, &id)), &mut ops);
+                    let p2 = add(w(leaf(h, &ren)), &mut ops);
+                    ops.push(HOp::Union(p1, p2));
+                    // 2. g symmetric under the set
+                    let a = add(leaf(g, &id), &mut ops);
+                    for p in &set {
+                        let b = add(leaf(g, p), &mut ops);
+                        ops.push(HOp::Union(a, b));
+                    }
+                    // 3. g = h
+                    let b = add(leaf(h, &id), &mut ops);
+                    ops.push(if orient == 0 { HOp::Union(a, b) } else { HOp::Union(b, a) });
+                    out.push(Hist { lang: LangId::Core, naming: Naming::Alpha, ops });
+                }
+            }
+        }
+    }
+    out
 }
 
 pub fn property(tier: Tier) -> Property {
